@@ -206,8 +206,9 @@ def run(ctx):
                 break
         if bad:
             # (the recorded finding: a comment behind a rule that consists of its keyword only is dropped, in a paragraph as well)
-            kw = {r["kind"] for r in bl if classify(r) == "/bare-keyword-with-comment"}
-            lost_comment = bad[0]["kind"] in kw and "#" in bad[0]["text"] and "#" not in bad[1]["text"] and bad[0]["text"].split("#")[0].strip() == bad[1]["text"].strip()
+            head = bad[0]["text"].split("#")[0].strip()
+            words = [w_ for w_ in head.rstrip(",").split() if w_ not in ("audit", "deny", "allow")]
+            lost_comment = len(words) == 1 and "#" in bad[0]["text"] and "#" not in bad[1]["text"] and head == bad[1]["text"].strip()
             viol("C09/parse-differs-from-text/bare-keyword-with-comment" if lost_comment else "C09/block/roundtrip-fields/%s" % bad[0]["kind"],
                  "formatted rule `%s` parsed back as `%s`" % (bad[0]["text"], bad[1]["text"]), {"block": T})
         elif rep["ok"]["text"] != T:
